@@ -9,7 +9,7 @@ plan = {
   "dc": {"omit_l2_at_31": bool, "skew_ticks": int, "domain": str, "forest": str, "pad_mode": str, "header_sign": bool, "byz": {}},
   "ctx": {"kind": "stub", "legs": 2, "sig": 16} | {"kind": "ntlm"} | {"kind": "negotiate"},
   "caller_sids": [sid, ...],
-  "delivery": {...} | None, "latency_us": [lo, hi], "use_dns": bool, "cred_fault": "stub-raise"|"ntlm-unknown-user"|"kerberos-not-installed" (credential acquisition fails),
+  "delivery": {...} | None, "latency_us": [lo, hi], "use_dns": bool, "conn_flap": n (the first n connects of every operation to the key service port are refused), "cred_fault": "stub-raise"|"ntlm-unknown-user"|"kerberos-not-installed" (credential acquisition fails),
   "ops": [ {"op": "load_key", "rk": i},
            {"op": "protect", "fl": "sync"|"async", "sid": s, "rk": i|None, "net": "online"|"offline", "data": n, "group": g|None},
            {"op": "unprotect", "fl": .., "net": .., "blob": {"rk": i, "sid": s, "pos": [l0,l1,l2], "mode": "nonce"|"pub", "trailing": bool, "data": n}
@@ -235,6 +235,9 @@ def execute_plan(plan: dict, kdf_limit: int = 300, keep_events: bool = False) ->
         else:  # another named cache shared by the operations that name it (e.g. a second process-wide cache that starts empty)
             the_cache = named_caches.setdefault(which, dpapi_ng.KeyCache())
         kw = api_kwargs(op, the_cache)
+        if plan.get("conn_flap") and op["op"] in ("protect", "unprotect"):
+            # fault: the next n connection attempts to the key service port are refused (the service is restarting)
+            world.flap_ports[dc.gkdi_port] = int(plan["conn_flap"])
         if op["op"] == "load_key":
             return ot, (lambda fl: ("load_key", (rks[op["rk"]],), {"cache": the_cache}))
         if op["op"] == "protect":
